@@ -862,6 +862,27 @@ class WrapperAnalysis:
         dst, s, ln = [unver(x) for x in ev.value]
         this = ('this',)
         c = self.classify_ptr(dst, this, tracked, owners, basefields)
+        # allocate - fill - publish: the destination is a block just allocated into a local smart pointer (not yet the array's)
+        if c is None and isinstance(dst, tuple) and dst[0] == 'call' and last(dst[1]) == 'get' and len(dst) == 3 \
+                and isinstance(dst[2], tuple) and dst[2][0] == 'construct' and len(dst[2]) >= 3 \
+                and isinstance(dst[2][2], tuple) and dst[2][2][0] == 'new' and dst[2][2][2] is not None:
+            cnt = dst[2][2][2]
+            elem = self.m.elem(r)
+            sz = [x for x in (ln[1:] if isinstance(ln, tuple) and ln[0] == 'mul' else ()) if isinstance(x, tuple) and x[0] == 'sizeof']
+            ok_len = (isinstance(ln, tuple) and ln[0] == 'mul' and len(sz) == 1 and mk_comm('mul', [x for x in ln[1:] if x is not sz[0]]) == cnt
+                      and sz[0][2] == elem.get('size')) or (elem.get('size') == 1 and ln == cnt)
+            if not ok_len:
+                findings.append(Finding('R-C11-6', 'memcpy-length', 'the fresh block holds %s elements of %d bytes but memcpy copies `%s` bytes'
+                                        % (show(cnt), elem.get('size', 0), show(ln)), ev.node, not (self.same_leaves(ln, cnt) or ln == cnt)))
+                return
+            guards = path.conds[:ev.conds_n]
+            if not any(unver(cn) == tuple(['eq'] + sorted([('null',), s], key=repr)) and pol is False for cn, pol, _ in guards):
+                findings.append(Finding('R-C11-6', 'memcpy-unguarded', 'memcpy from `%s` is not guarded by a non-null test of the source '
+                                        '(a null / empty source reaches memcpy)' % show(s), ev.node))
+                return
+            findings.append(Finding('R-C11-6', 'ok-memcpy', 'memcpy(%s, %s, %s) fills a block of %s elements allocated just before, source tested non-null'
+                                    % (show(dst), show(s), show(ln), show(cnt)), ev.node))
+            return
         if c is None or c['kind'] != 'own' or c.get('okind') not in ('sp_alloc', 'up_alloc', 'vec'):
             findings.append(Finding('R-C11-6', 'memcpy-dst', 'memcpy destination `%s` is not the array\'s own allocation' % show(dst), ev.node, True))
             return
